@@ -9,7 +9,7 @@ Open Scope Z_scope.
 
 (* capacity 2, threshold out of reach: the third ingest runs the emergency
    digest (one item counted), the fourth again; the bound is attained *)
-Definition cfg_cap := mkConfig 2 9 2 true.
+Definition cfg_cap := mkConfig 2 9 (Some 2) true.
 Example ex_bounded_at_capacity :
   let s := run cfg_cap [Ingest Misfolded 0 (Ok [1]); Ingest Orphaned 0 Raises;
                         Ingest ExpiredCache 0 (Ok []); IngestError (Ok [2])] in
@@ -19,7 +19,7 @@ Proof. vm_compute. auto 12. Qed.
 (* the hypothesis max_queue_size >= 2 of c13_queue_bounded is needed: with
    capacity 1 the emergency digest processes 1 // 2 = 0 items *)
 Example bound_fails_at_1 :
-  exists ops, qlen (run (mkConfig 1 9 2 true) ops) > 1.
+  exists ops, qlen (run (mkConfig 1 9 (Some 2) true) ops) > 1.
 Proof. exists [Ingest Misfolded 0 (Ok []); Ingest Misfolded 0 (Ok [])]. vm_compute. reflexivity. Qed.
 
 (* a history in which every fate occurs and something is still queued *)
@@ -44,13 +44,13 @@ Proof. vm_compute. auto 12. Qed.
    second ingest digests 2 // 2 = 1 item; a raising digester there is the
    AutoDiscarded fate nobody is told about *)
 Example ex_auto_digest :
-  let s := run (mkConfig 8 2 2 true) [Ingest Misfolded 0 Raises; IngestSensitive (Ok [])] in
+  let s := run (mkConfig 8 2 (Some 2) true) [Ingest Misfolded 0 Raises; IngestSensitive (Ok [])] in
   ids (queue s) = [1] /\ nfate AutoDiscarded s = 1 /\ n_digested s = 0 /\ n_ingested s = 2.
 Proof. vm_compute. auto 12. Qed.
 
 (* threshold 1: len // 2 = 0 means "all" *)
 Example ex_threshold_one :
-  let s := run (mkConfig 4 1 2 true) [IngestSensitive (Ok [])] in
+  let s := run (mkConfig 4 1 (Some 2) true) [IngestSensitive (Ok [])] in
   queue s = [] /\ n_digested s = 1 /\ toxlog s = [0].
 Proof. vm_compute. auto 12. Qed.
 
@@ -58,12 +58,12 @@ Proof. vm_compute. auto 12. Qed.
    satisfiable: a bin entry, a toxic item digested (logged once), a toxic item
    expired (never logged) *)
 Example ex_toxic :
-  let s := run (mkConfig 8 9 1 true)
+  let s := run (mkConfig 8 9 (Some 1) true)
                [IngestSensitive (Ok []); Ingest Misfolded 0 (Ok [5]); DigestOp None;
                 IngestSensitive (Ok []); Advance 1; Autophagy] in
   In (5, 1) (bin s) /\
-  In (mkItem 0 Toxic 0 (Ok []), Digested) (g_fates s) /\
-  In (mkItem 2 Toxic 0 (Ok []), Expired) (g_fates s) /\
+  In (mkItem 0 Toxic (At 0) (Ok []), Digested) (g_fates s) /\
+  In (mkItem 2 Toxic (At 0) (Ok []), Expired) (g_fates s) /\
   toxlog s = [0].
 Proof. vm_compute. auto 12. Qed.
 
@@ -71,17 +71,66 @@ Proof. vm_compute. auto 12. Qed.
    queue and the fates are as they were; a later digest fills the bin again *)
 Example ex_clear_bin :
   let ops := [Ingest Misfolded 0 (Ok [5]); IngestSensitive (Ok []); DigestOp (Some 1)] in
-  let s0 := run (mkConfig 8 9 1 true) ops in
-  let s1 := run (mkConfig 8 9 1 true) (ops ++ [ClearBin]) in
-  let s2 := run (mkConfig 8 9 1 true) (ops ++ [ClearBin; Ingest Orphaned 0 (Ok [5; 6]); DigestOp None]) in
+  let s0 := run (mkConfig 8 9 (Some 1) true) ops in
+  let s1 := run (mkConfig 8 9 (Some 1) true) (ops ++ [ClearBin]) in
+  let s2 := run (mkConfig 8 9 (Some 1) true) (ops ++ [ClearBin; Ingest Orphaned 0 (Ok [5; 6]); DigestOp None]) in
   bin s0 = [(5, 0)] /\ bin s1 = [] /\ queue s1 = queue s0 /\ g_fates s1 = g_fates s0 /\
   (n_ingested s1, n_digested s1, n_recycled s1) = (2, 1, 1) /\
   bin s2 = [(5, 2); (6, 2)] /\ toxlog s2 = [1].
 Proof. vm_compute. auto 12. Qed.
 
+(* ---- error paths ------------------------------------------------------- *)
+
+(* an item with a timezone-aware (or non-datetime) created_at is queued between
+   two ordinary ones: autophagy() raises - and so does digest(1.5) - leaving
+   the object exactly as it was; the caller digests the odd item away and the
+   next sweep works (the sensitive item expires: never logged) *)
+Example ex_error_paths :
+  let cfg := mkConfig 8 9 (Some 1) true in
+  let ops := [Ingest Misfolded 0 (Ok [1]); IngestOdd ExpiredCache (Ok []); IngestSensitive (Ok [])] in
+  let s := run cfg ops in
+  step cfg s Autophagy = (s, RRaised) /\ step cfg s DigestBad = (s, RRaised) /\
+  sweepable cfg s = false /\ ids (queue s) = [0; 1; 2] /\
+  let s2 := run cfg (ops ++ [Autophagy; DigestBad; Advance 2; Autophagy; DigestOp (Some 2)]) in
+  ids (queue s2) = [2] /\ sweepable cfg s2 = true /\ step cfg s2 Autophagy <> (s2, RRaised) /\
+  let s3 := run cfg (ops ++ [Autophagy; DigestBad; Advance 2; Autophagy; DigestOp (Some 2); Autophagy]) in
+  queue s3 = [] /\ nfate Expired s3 = 1 /\ nfate Digested s3 = 2 /\ n_ingested s3 = 3 /\ toxlog s3 = [] /\
+  bin s3 = [(1, 0)].
+Proof. vm_compute. repeat split; try reflexivity; discriminate. Qed.
+
+(* retention_period assigned something that is not a timedelta on the live
+   object: autophagy() raises as soon as an item is queued (not on the empty
+   queue: nothing is compared); assigned a timedelta again, the sweep works *)
+Example ex_retention_not_a_timedelta :
+  let cfg := mkConfig 8 9 (Some 1) true in
+  let st := rrun cfg [ROp (Atomic (IngestError (Ok []))); SetRet None] in
+  retention (fst st) = None /\ auto_thr (fst st) = 9 /\
+  snd (rstep (fst st) (snd st) (ROp (Atomic Autophagy))) = CRet RRaised /\
+  snd (fst (rstep (fst st) (snd st) (ROp (Atomic Autophagy)))) = snd st /\
+  snd (rstep (set_ret cfg None) cinit (ROp (Atomic Autophagy))) = CRet (RRemoved 0) /\
+  snd (rstep (set_ret (fst st) (Some 0)) (snd st) (ROp (Atomic Autophagy))) = CRet (RRemoved 1).
+Proof. vm_compute. auto 12. Qed.
+
+(* two threads, both of which make calls that raise (hypothesis of
+   c13_threads_after_a_raising_call): thread 0's autophagy() raises over the odd
+   item, then thread 1's digest(1.5) raises, then thread 1 digests the item,
+   sweeps (nothing to compare any more) and thread 0 ingests: everything returns *)
+Example ex_threads_raising :
+  let cfg := mkConfig 4 9 (Some 1) true in
+  let ts0 := mkT (crun cfg [Atomic (IngestOdd Orphaned (Ok [2]))])
+                 [[Autophagy; IngestError (Ok [])]; [DigestBad; DigestOp None; Autophagy]] in
+  let ts1 := fst (tstep cfg ts0 0) in
+  snd (tstep cfg ts0 0) = CRet RRaised /\ t_cs ts1 = t_cs ts0 /\
+  busy ts1 1 = true /\ busy ts1 0 = true /\ snd (tstep cfg ts1 1) = CRet RRaised /\
+  snd (tstep cfg (trun cfg ts0 [0; 1; 1; 1]%nat) 1) = CRet (RRemoved 0) /\
+  let ts := trun cfg ts0 [0; 1; 1; 1; 1; 0]%nat in
+  all_done ts = true /\ work ts = 1%nat (* the item left in the queue *) /\ ids (queue (c_base (t_cs ts))) = [1] /\
+  bin (c_base (t_cs ts)) = [(2, 0)].
+Proof. vm_compute. auto 12. Qed.
+
 (* ---- overlapping digest calls ------------------------------------------ *)
 
-Definition cfg_free := mkConfig 8 9 2 true.
+Definition cfg_free := mkConfig 8 9 (Some 2) true.
 
 (* thread 0 digests [0; 1] (both digesters raise); while it is inside the
    digester of item 1 another thread runs a complete digest() on the empty
@@ -119,13 +168,13 @@ Proof. vm_compute. auto 20. Qed.
    ingest reaching the auto-digest threshold (whose own digest pass fails
    silently): logged once, nothing recycled from it *)
 Example ex_overlap_toxic_and_auto_digest :
-  let cs := crun (mkConfig 8 2 2 true)
+  let cs := crun (mkConfig 8 2 (Some 2) true)
                  [Atomic (IngestSensitive (Ok [])); PassBegin 0 None;
                   Atomic (Ingest Misfolded 0 Raises); Atomic (Ingest Misfolded 0 (Ok [1]));
                   PassStep 0] in
   toxlog (c_base cs) = [0] /\ ids (queue (c_base cs)) = [2] /\
   nfate AutoDiscarded (c_base cs) = 1 /\ nfate Digested (c_base cs) = 1 /\ bin (c_base cs) = [] /\
-  In (mkItem 0 Toxic 0 (Ok []), Digested) (g_fates (c_base cs)).
+  In (mkItem 0 Toxic (At 0) (Ok []), Digested) (g_fates (c_base cs)).
 Proof. vm_compute. auto 12. Qed.
 
 (* a label in use / a step of a pass that does not exist are not calls *)
@@ -166,8 +215,8 @@ Proof. vm_compute. auto 20. Qed.
 Example ex_threads_other_schedule :
   let ts0 := mkT (crun cfg_cap thr_pre) thr_progs in
   ids (queue (c_base (t_cs (trun cfg_cap ts0 [1; 0]%nat)))) = [2; 3] /\
-  it_type (nth 0 (queue (c_base (t_cs (trun cfg_cap ts0 [1; 0]%nat)))) (mkItem 0 Misfolded 0 Raises)) = Toxic /\
-  it_type (nth 0 (queue (c_base (t_cs (trun cfg_cap ts0 [0; 1]%nat)))) (mkItem 0 Misfolded 0 Raises)) = FailedOp.
+  it_type (nth 0 (queue (c_base (t_cs (trun cfg_cap ts0 [1; 0]%nat)))) (mkItem 0 Misfolded (At 0) Raises)) = Toxic /\
+  it_type (nth 0 (queue (c_base (t_cs (trun cfg_cap ts0 [0; 1]%nat)))) (mkItem 0 Misfolded (At 0) Raises)) = FailedOp.
 Proof. vm_compute. auto. Qed.
 
 (* what run_case prints for such a run (the rows the harness compares with
@@ -184,7 +233,7 @@ Proof. vm_compute. auto. Qed.
    and digests it (the third one: emergency digest at capacity 2): every
    on_toxic log holds the object's OWN item, once; the objects number their
    items independently; the mapping is what it was *)
-Definition cfg_w := mkConfig 4 9 2 true.
+Definition cfg_w := mkConfig 4 9 (Some 2) true.
 Definition world_ops : list wop :=
   [ WNew cfg_w; WNew cfg_w;
     WOn 0 (ROp (Atomic (IngestSensitive (Ok [])))); WOn 0 (ROp (Atomic (DigestOp None)));
@@ -236,8 +285,8 @@ Proof. vm_compute. reflexivity. Qed.
 Example ex_threshold_lowered :
   let ops := (map (fun o => ROp (Atomic o)) (repeat (Ingest Misfolded 0 (Ok [])) 5)
               ++ [SetThr 1; ROp (Atomic (IngestError (Ok [])))])%list in
-  let st := rrun (mkConfig 8 8 2 true) ops in
-  let st2 := rrun (mkConfig 8 8 2 true) (ops ++ [ROp (Atomic (IngestError (Ok [])))])%list in
+  let st := rrun (mkConfig 8 8 (Some 2) true) ops in
+  let st2 := rrun (mkConfig 8 8 (Some 2) true) (ops ++ [ROp (Atomic (IngestError (Ok [])))])%list in
   auto_thr (fst st) = 1 /\ max_queue (fst st) = 8 /\
   ids (queue (c_base (snd st))) = [3; 4; 5] /\ nfate Digested (c_base (snd st)) = 3 /\
   ids (queue (c_base (snd st2))) = [5; 6] /\ n_ingested (c_base (snd st2)) = 7.
@@ -299,6 +348,60 @@ Proof.
   { intros i Hi. unfold two_threads. destruct (Nat.ltb_spec i 2); [lia|reflexivity]. }
   destruct (lock_machine_terminates gen_kind two_threads 2 Id n m R) as [E _].
   split; [lia|]. vm_compute. lia.
+Qed.
+
+(* error paths on the class as it is: any calls, any of them raising anywhere *)
+Example gen_error_paths_no_deadlock :
+  forall fuel (calls : nat -> list xcall) m,
+    mreach gen_kind (minit (fun i => thread_prog_x gen_graph fuel (calls i))) m ->
+    (exists i, m_code m i <> []) -> exists m', mstep gen_kind m m'.
+Proof. exact (error_paths_no_deadlock gen_kind gen_graph Gen_C13_ok). Qed.
+
+(* non-vacuity: autophagy() raising inside its `with` block gives the lock back;
+   ingest() raising at any of its points - some of them two levels deep (ingest
+   -> _auto_digest -> digest) - gives back every level *)
+Example gen_unwind :
+  compile gen_graph 30 "autophagy" = [Acq; Step; Rel] /\
+  unwind 2 (compile gen_graph 30 "autophagy") = [Acq; Step; Rel] /\
+  unwind 0 (compile gen_graph 30 "autophagy") = [] /\
+  existsb (fun n => Nat.eqb (depth_after 0 (firstn n (compile gen_graph 30 "ingest"))) 2) (seq 0 60) = true /\
+  forallb (fun n => wb 0 (unwind n (compile gen_graph 30 "ingest"))) (seq 0 60) = true /\
+  thread_prog_x gen_graph 30 [("autophagy"%string, Some 2%nat); ("digest"%string, None)]
+    = ([Acq; Step; Rel] ++ compile gen_graph 30 "digest")%list.
+Proof. vm_compute. auto 12. Qed.
+
+(* what the theorem rules out.  `self._lock.acquire() ... self._lock.release()`
+   without try/finally is NOT `with self._lock:`: on the error path the raise
+   skips the release.  Thread 0 makes such a call and it raises ([Acq; Step],
+   no Rel: not well bracketed), thread 1 then calls anything that takes the
+   lock: thread 0 has finished, thread 1 can never move - although the lock is
+   re-entrant *)
+Definition leaky_progs (i : nat) : list instr :=
+  match i with O => [Acq; Step] | S O => [Acq; Step; Rel] | _ => [] end.
+
+Lemma error_path_without_release_deadlocks :
+  wb 0 (leaky_progs 0) = false /\
+  exists m, mreach Reentrant (minit leaky_progs) m /\
+            m_code m 0%nat = [] /\ (exists i, m_code m i <> []) /\
+            ~ exists m', mstep Reentrant m m'.
+Proof.
+  split; [reflexivity|].
+  set (f1 := upd leaky_progs 0 [Step]).
+  set (f2 := upd f1 0 []).
+  exists (mkMS f2 (Some 0%nat) 1).
+  assert (F2 : forall i, f2 i = match i with 1%nat => [Acq; Step; Rel] | _ => [] end).
+  { intros i. unfold f2, f1, upd, leaky_progs. destruct i as [|[|i]]; reflexivity. }
+  split; [|split; [|split]].
+  - eapply MRS; [eapply MRS; [apply MR0|]|].
+    + unfold minit. apply (MAcqFree Reentrant leaky_progs 0 0). reflexivity.
+    + apply (MStep Reentrant f1 (Some 0%nat) 1 0). reflexivity.
+  - reflexivity.
+  - exists 1%nat. cbn. discriminate.
+  - intros [m' S].
+    inversion S as [f o c i rest Hi | f c i rest Hi | f c i rest Hk Hi | f i rest Hi | f c i rest Hi]; subst.
+    + rewrite F2 in Hi. destruct i as [|[|i]]; discriminate.
+    + rewrite F2 in Hi. discriminate.
+    + rewrite F2 in Hi. discriminate.
 Qed.
 
 (* the checks can fail.  (1) A loop that digests "until the queue is below the
